@@ -25,6 +25,8 @@ CONSTANTS
   CancelIsTimeout = %(cit)s
   RecordScript = %(record)s
   NetLoss = %(netloss)s
+  FlushAbandon = %(fab)s
+  FlushResBuffered = %(frb)s
 %(view)s
 INVARIANTS %(invs)s
 %(constraint)s
@@ -32,7 +34,7 @@ CHECK_DEADLOCK FALSE
 """
 
 INV_C01 = "Conservation Numbering NoEmptyChunk AliasOnlyAfterGrant SendHookOnce AckHookSound CloseTotals NoChunkAfterClose AllReceivedAtClose SnapshotConservation"
-INV_C20 = INV_C01 + " SizePolicyBound NoneCutsOnlyOnDemand ImmediateCutsEveryWrite"
+INV_C20 = INV_C01 + " SizePolicyBound NoneCutsOnlyOnDemand ImmediateCutsEveryWrite FlushBarrier"
 INV_C02 = "Conservation Numbering NoEmptyChunk AliasOnlyAfterGrant SendHookOnce AckHookSound CloseTotals SnapshotConservation StoredUntilAcked NothingLostWhenQuiescent ResendOnlyStored"
 
 
@@ -41,7 +43,7 @@ def q(xs):
 
 
 def write_cfg(name, ids=("A", "B"), writers=("W1", "W2"), flushers=("F1",), maxw=2, policy="none", thr=2, sizes=(1,),
-              zero=False, reliable=True, faults=0, dups=1, acks=2, grants=True, conflicts=0, view=True, invs=INV_C01, gen=False, mon=False, live=False, cancel_is_timeout=False, netloss=False):
+              zero=False, reliable=True, faults=0, dups=1, acks=2, grants=True, conflicts=0, view=True, invs=INV_C01, gen=False, mon=False, live=False, cancel_is_timeout=False, netloss=False, flush_abandon=False, flush_res_buffered=False):
     path = os.path.join(SPEC, name)
     with open(path, "w") as f:
         f.write(CFG % dict(ids=q(ids), writers=q(writers), flushers=q(flushers), maxw=maxw, policy=policy, thr=thr,
@@ -49,7 +51,7 @@ def write_cfg(name, ids=("A", "B"), writers=("W1", "W2"), flushers=("F1",), maxw
                            reliable="TRUE" if reliable else "FALSE", faults=faults, dups=dups, acks=acks,
                            grants="TRUE" if grants else "FALSE", conflicts=conflicts,
                            view=("" if live else ("VIEW MView" if mon else "VIEW View")) if view else "", invs=invs,
-                           spec="FairSpec" if live else ("MSpec" if mon else "Spec"), record="FALSE" if live else "TRUE", cit="TRUE" if cancel_is_timeout else "FALSE", netloss="TRUE" if netloss else "FALSE",
+                           spec="FairSpec" if live else ("MSpec" if mon else "Spec"), record="FALSE" if live else "TRUE", cit="TRUE" if cancel_is_timeout else "FALSE", netloss="TRUE" if netloss else "FALSE", fab="TRUE" if flush_abandon else "FALSE", frb="TRUE" if flush_res_buffered else "FALSE",
                            constraint=("PROPERTIES EventuallyDelivered" if live else "") + ("\nCONSTRAINT GenPrint" if gen else "")))
     return name
 
